@@ -20,7 +20,7 @@ for d in $(ls seeded | grep "^C" | sort); do
   sum=$(python3 -c "import json;m=json.load(open('seeded/$d/meta.json'));print(m.get('summary','').replace('|','/').replace('\n',' ')[:160])")
   needs=$(python3 -c "import json;m=json.load(open('seeded/$d/meta.json'));print(m.get('needs','').replace('|','/').replace('\n',' ')[:160])")
   if [ "$st" != "ok" ]; then echo "| $d | $sum | $needs | not applicable at final HEAD: $st | |" >> $out; continue; fi
-  r=$(tools/seedtest.sh seeded/$d/patch.diff $prop quick 2>&1)
+  r=$(tools/seedtest.sh /verif/seeded/$d/patch.diff $prop quick 2>&1)
   verdict=$(echo "$r" | grep -E "^(DETECTED|MISSED|MACHINERY|PATCH)" | head -1 | cut -d' ' -f1)
   cls=$(echo "$r" | grep "site=" | head -1 | sed 's/ cases=.*//' | sed 's/^ *//' | cut -c1-150 | sed 's/|/\//g')
   echo "| $d | $sum | $needs | $verdict | $cls |" >> $out
